@@ -263,7 +263,11 @@ fn gen_recs(rng: &mut Rng, adversarial: bool) -> Vec<Rec> {
 /// Observed answers to one DNS query: markers found in the answer section.
 async fn query(server: &VerifServer, key: u8, lbl: u8, kind: &RecKind, id: u16) -> Result<(u8, Vec<(u32, String, u16)>), String> {
     let name = format!("{}.{}.{}", label(lbl), z32(key), ORIGIN);
-    let wire = build_query(&name, kind, id);
+    query_name(server, &name, kind, id).await
+}
+
+async fn query_name(server: &VerifServer, name: &str, kind: &RecKind, id: u16) -> Result<(u8, Vec<(u32, String, u16)>), String> {
+    let wire = build_query(name, kind, id);
     let resp = server.dns_query(&wire).await.map_err(|e| format!("{e:#}"))?;
     let pkt = Packet::parse(&resp).map_err(|e| format!("unparsable response: {e}"))?;
     let mut out = vec![];
@@ -510,6 +514,42 @@ async fn check_answers(server: &VerifServer, model: &Model, qid: &mut u16, ctx: 
                 }
                 if !want.is_empty() {
                     ctx.count("probe.nonempty_answers_checked");
+                }
+            }
+        }
+        // names in which k's key label is NOT the label directly below the origin: the zone is decided by
+        // that position only, so these are answered from another zone (or not at all), never from k's
+        for l in 0..2u8 {
+            for kind in [RecKind::Txt, RecKind::A] {
+                let k2 = (k + 1) % 3;
+                let shapes = [
+                    (format!("{}.{}.sub.{}", label(l), z32(k), ORIGIN), None),
+                    (format!("{}.{}.a.b.{}", label(l), z32(k), ORIGIN), None),
+                    (format!("{}.{}.{}.{}", label(l), z32(k), z32(k2), ORIGIN), Some(k2)),
+                ];
+                for (qname, zone_key) in shapes {
+                    *qid = qid.wrapping_add(1);
+                    let (_rc, answers) = query_name(server, &qname, &kind, *qid).await.map_err(|e| ("dns-query-failed".to_string(), e))?;
+                    let mut want: Vec<u32> = vec![];
+                    if let Some(zk) = zone_key {
+                        if let Some((_, built, _)) = model.stored.get(&zk).map(|i| &model.published[*i]) {
+                            for (m, name, rk) in &built.markers {
+                                if *rk == kind && format!("{name}.{ORIGIN}") == qname {
+                                    want.push(*m);
+                                }
+                            }
+                        }
+                    }
+                    let mut got: Vec<u32> = answers.iter().map(|a| a.0).collect();
+                    got.sort();
+                    want.sort();
+                    if got != want {
+                        return Err((
+                            "answer-from-zone-of-a-key-not-directly-below-origin".into(),
+                            format!("query {qname} {kind:?}: answered markers {got:?}, expected {want:?} (the zone of a name is the key label directly below the origin)"),
+                        ));
+                    }
+                    ctx.count("probe.key_label_position_queries");
                 }
             }
         }
